@@ -113,4 +113,33 @@ def generate(rng, tier):
     out += pipeline.guided_cases(rng, nrand, hist, 'hist', cfgmod=mod)
     for i in range(40 if tier == 'thorough' else 8):
         out.append(dyn_case(rng, i))
+    # the server goes away (its reader ended): queued-but-untransmitted and transmitted requests are all released once,
+    # then the clients disconnect
+    for i in range(120 if tier == 'thorough' else 12):
+        cfg = base_cfg(rng, statsrv=rng.randrange(4), dupint=10, tcp=rng.random() < 0.5)
+        w = 'A' + ''.join(rng.choice('ACDEFLGHTIK') for _ in range(rng.randrange(1, 7)))
+        ops = event_ops(rng, cfg, w) + ['op srvgone 0'] + ['op cgone %d' % c for c in rng.sample([0, 1], 2)]
+        out.append(('srvgone-%d' % i, cfg.conf_lines() + cfg.cfg_lines() + ops))
+    # requests that cannot be serialised for the server (too long once the Message-Authenticator is added), followed
+    # by ordinary traffic on the same table: every slot must be usable afterwards
+    for i in range(30 if tier == 'thorough' else 6):
+        cfg = base_cfg(rng, statsrv=rng.randrange(4), dupint=10)
+        ops = []
+        now = 1000005
+        target = rng.choice([4079, 4085, 4090, 4096, 4078, 4060])
+        fill = []
+        size = 20 + 17 + 6 + 19 + 6       # header + User-Name + NAS-IP + Calling-Station-Id + Proxy-State of clean_request
+        while size + 255 <= target:
+            fill.append((18, b'x' * 253)); size += 255
+        rest = target - size
+        if rest >= 2:
+            fill.append((18, b'y' * (rest - 2)))
+        big, _ = pipeline.clean_request(rng, cfg, 0, code=1, ident=50, uname=b'bob@example.com', extra=fill, ma=False)
+        ops.append('op cpkt 0 %d %s %s' % (now, pipeline.rnd40(rng), hx(big)))
+        for k in range(3):
+            p2, _ = pipeline.clean_request(rng, cfg, 0, code=1, ident=60 + k, uname=b'bob@example.com')
+            ops.append('op cpkt 0 %d %s %s' % (now, pipeline.rnd40(rng), hx(p2)))
+        ops.append('op wpass 0 %d %s' % (now, pipeline.rnd40(rng)))
+        ops.append('op cgone 0')
+        out.append(('big-%d' % i, cfg.conf_lines() + cfg.cfg_lines() + ops))
     return out
